@@ -12,6 +12,7 @@ import YashModel.Pipe.Spec
 import YashModel.Pipe.Flow
 import YashModel.Pipe.Fds
 import YashModel.Pipe.File
+import YashModel.Pipe.Wake
 open YashModel YashModel.Pipe YashModel.Proto
 
 abbrev Byte := Nat
@@ -56,6 +57,8 @@ inductive Op where
   | write (k n : Nat)
   | read (k n : Nat)
   | sel
+  | park (k : Nat) (r w : Bool)
+  | poll (j : Nat)
 
 def parseOp (t : String) : Option Op :=
   match words t with
@@ -71,6 +74,10 @@ def parseOp (t : String) : Option Op :=
   | ["w", k, n] => do pure (.write (← k.toNat?) (← n.toNat?))
   | ["r", k, n] => do pure (.read (← k.toNat?) (← n.toNat?))
   | ["sel"] => some .sel
+  | ["park", "r", k] => do pure (.park (← k.toNat?) true false)
+  | ["park", "w", k] => do pure (.park (← k.toNat?) false true)
+  | ["park", "b", k] => do pure (.park (← k.toNat?) true true)
+  | ["poll", j] => do pure (.poll (← j.toNat?))
   | _ => none
 
 structure OpState where
@@ -78,6 +85,11 @@ structure OpState where
   slots : List (Option Ofd) := []
   accepted : List Byte := []
   delivered : List Byte := []
+  /-- the FIFO's waker sets and the wakers that have fired -/
+  wk : Wakers := {}
+  /-- `select` calls that returned `Pending` and are kept alive: (waker id, slot, in reader set, in writer set) -/
+  parked : List (Nat × Nat × Bool × Bool) := []
+  nextId : Nat := 0
 
 def slotGet (st : OpState) (k : Nat) : Option Ofd := (st.slots.getD k none)
 
@@ -102,13 +114,19 @@ def opStep (st : OpState) (i : Nat) : Op → String × OpState × Option String
   | .close k =>
     match slotGet st k with
     | none => ("nofd", st, none)
-    | some o => ("ok", { st with fifo := st.fifo.closeFd o.readable o.writable, slots := st.slots.set k none }, none)
+    | some o =>
+      -- the harness drops the `select` futures parked on this slot before it closes the descriptor
+      let gone := (st.parked.filter fun e => e.2.1 == k).map (·.1)
+      let wk0 : Wakers := { pendR := st.wk.pendR.filter (!gone.contains ·), pendW := st.wk.pendW.filter (!gone.contains ·),
+                            fired := st.wk.fired.filter (!gone.contains ·) }
+      let (f, wk') := wfClose st.fifo wk0 o.readable o.writable
+      ("ok", { st with fifo := f, wk := wk', parked := st.parked.filter (fun e => e.2.1 != k), slots := st.slots.set k none }, none)
   | .write k n =>
     match slotGet st k with
     | none => ("nofd", st, none)
     | some o =>
       let buf := opData i n
-      let (res, f) := o.sysWrite cfg st.fifo buf
+      let (res, f, wk') := o.sysWriteW cfg st.fifo st.wk buf
       let written := f.content.length - st.fifo.content.length
       let txt := match res with
         | .ok m => s!"ok {m}"
@@ -132,12 +150,12 @@ def opStep (st : OpState) (i : Nat) : Op → String × OpState × Option String
                         else some "blocking-write-pending-with-room"
           | .err .EPIPE => if st.fifo.readers == 0 then none else some "epipe-with-readers"
           | .err _ => some "blocking-write-error"
-      (txt, { st with fifo := f, accepted := st.accepted ++ buf.take written }, verdict)
+      (txt, { st with fifo := f, wk := wk', accepted := st.accepted ++ buf.take written }, verdict)
   | .read k n =>
     match slotGet st k with
     | none => ("nofd", st, none)
     | some o =>
-      let (res, bs, f) := o.sysRead st.fifo n
+      let (res, bs, f, wk') := o.sysReadW st.fifo st.wk n
       let txt := match res with
         | .ok m => s!"ok {m}:{hashBytes bs}"
         | .pending => "pend"
@@ -147,14 +165,14 @@ def opStep (st : OpState) (i : Nat) : Op → String × OpState × Option String
         else
           let blocked := match res with | .ok _ => false | _ => true
           if specReadOk st.fifo n blocked bs.length then none else some "read-law"
-      (txt, { st with fifo := f, delivered := st.delivered ++ bs }, verdict)
+      (txt, { st with fifo := f, wk := wk', delivered := st.delivered ++ bs }, verdict)
   | .dwrite k n =>
     -- `OpenFileDescription::write`: one `poll_write`; `Pending` → EAGAIN
     match slotGet st k with
     | none => ("nofd", st, none)
     | some o =>
       let buf := opData i n
-      let (res, f) := o.pollWrite cfg st.fifo buf
+      let (res, f, wk') := o.pollWriteW cfg st.fifo st.wk buf
       let written := f.content.length - st.fifo.content.length
       let txt := match res with
         | .ok m => s!"ok {m}"
@@ -168,12 +186,12 @@ def opStep (st : OpState) (i : Nat) : Op → String × OpState × Option String
             | .err .EPIPE => WRes.epipe
             | _ => WRes.block
           if specWriteOk cfg st.fifo n wres f buf then none else some "write-law"
-      (txt, { st with fifo := f, accepted := st.accepted ++ buf.take written }, verdict)
+      (txt, { st with fifo := f, wk := wk', accepted := st.accepted ++ buf.take written }, verdict)
   | .dread k n =>
     match slotGet st k with
     | none => ("nofd", st, none)
     | some o =>
-      let (res, bs, f) := o.sysRead st.fifo n
+      let (res, bs, f, wk') := o.sysReadW st.fifo st.wk n
       let txt := match res with
         | .ok m => s!"ok {m}:{hashBytes bs}"
         | .pending => "EAGAIN"
@@ -183,7 +201,32 @@ def opStep (st : OpState) (i : Nat) : Op → String × OpState × Option String
         else
           let blocked := match res with | .ok _ => false | _ => true
           if specReadOk st.fifo n blocked bs.length then none else some "read-law"
-      (txt, { st with fifo := f, delivered := st.delivered ++ bs }, verdict)
+      (txt, { st with fifo := f, wk := wk', delivered := st.delivered ++ bs }, verdict)
+  | .park k r w =>
+    -- `select` without timeout on slot `k`, polled once with a fresh waker and kept alive if pending
+    match slotGet st k with
+    | none => ("nofd", st, none)
+    | some o =>
+      let id := st.nextId
+      match wfSelect cfg o st.fifo st.wk r w id with
+      | (some (rr, rw), _) => (s!"sel R={if rr then toString k else "-"} W={if rw then toString k else "-"}", st, none)
+      | (none, wk') => (s!"parked {id}", { st with wk := wk', parked := st.parked ++ [(id, k, r, w)], nextId := id + 1 }, none)
+  | .poll j =>
+    -- the parked `select` number `j` is polled again (its wake flag is reset first)
+    match st.parked.find? (·.1 == j) with
+    | none => ("nopark", st, none)
+    | some (_, k, r, w) =>
+      match slotGet st k with
+      | none => ("nopark", st, none)
+      | some o =>
+        let wk0 : Wakers := { st.wk with fired := st.wk.fired.filter (· != j) }
+        match wfSelect cfg o st.fifo wk0 r w j with
+        | (some (rr, rw), _) =>
+          -- completed: the future (and its waker cell) is dropped, registrations left behind are dead
+          (s!"sel R={if rr then toString k else "-"} W={if rw then toString k else "-"}",
+            { st with wk := { wk0 with pendR := wk0.pendR.filter (· != j), pendW := wk0.pendW.filter (· != j) },
+                      parked := st.parked.filter (·.1 != j) }, none)
+        | (none, wk') => (s!"parked {j}", { st with wk := wk' }, none)
   | .selBad => ("sel EBADF", st, none)
   | .sel =>
     let idx := List.range st.slots.length
@@ -194,6 +237,15 @@ def opStep (st : OpState) (i : Nat) : Op → String × OpState × Option String
       | some o => !o.writable || st.fifo.readyW cfg
       | none => false
     (s!"sel R={idList rs} W={idList ws}", st, none)
+
+/-- Spec of the wake-up half, evaluated on the model's state after every operation: a parked `select`
+    whose waker has not fired waits for descriptors that are really not ready -/
+def lostWakeup (st : OpState) : Bool :=
+  st.parked.any fun (id, k, r, w) =>
+    !st.wk.fired.contains id &&
+      match slotGet st k with
+      | none => false
+      | some o => (r && (!o.readable || st.fifo.readyR)) || (w && (!o.writable || st.fifo.readyW cfg))
 
 def runOps (line : String) : String :=
   let parts := (splitTrim line ";").filter (· ≠ "")
@@ -210,11 +262,13 @@ def runOps (line : String) : String :=
         let v2 : Option String :=
           if st'.delivered ++ st'.fifo.content != st'.accepted then some "stream"
           else if st'.fifo.content.length > cfg.pipeSize then some "capacity"
+          else if lostWakeup st' then some "lost-wakeup"
           else v
         let verdict' := match verdict with
           | some x => some x
           | none => v2.map fun x => s!"FAIL:{x}@{i}"
-        let o := s!"{txt} len={st'.fifo.content.length} sum={hashBytes st'.fifo.content} r={st'.fifo.readers} w={st'.fifo.writers}"
+        let woken := (st'.parked.map (·.1)).filter (st'.wk.fired.contains ·)
+        let o := s!"{txt} len={st'.fifo.content.length} sum={hashBytes st'.fifo.content} r={st'.fifo.readers} w={st'.fifo.writers} wk={idList woken}"
         go st' rest (i + 1) (o :: obs) verdict'
     let (obs, verdict) := go {} ops 0 [] none
     " | ".intercalate obs ++ "\t" ++ verdict.getD "ok"
@@ -235,6 +289,14 @@ def runXfer (ws : List String) : String :=
       | .err e => s!"rderr={showErr e} len={bs.length}"
       | _ => s!"rderr=none len={bs.length}"
     txt ++ "\t=rderr=EBADF len=0"
+  else if kv ws "mode" == some "proc" then
+    -- writer and reader are two virtual processes inside `run_virtual`: explicit wakers (Wake.lean); the
+    -- model executor polls a parked process only after its waker fired, so a lost wake-up would be `stuck`
+    let p := payload (kvNat ws "n") (kvNat ws "pat") (kvNat ws "per") (kvNat ws "nl")
+    let want := specTransfer p
+    (match wtransfer cfg (kvNat ws "seed") (kvNat ws "wk") (kvNat ws "rk") p with
+      | some x => s!"recv={x.length}:{hashBytes x} w=closed r=done"
+      | none => "stuck") ++ "\t" ++ s!"=recv={want.length}:{hashBytes want} w=closed r=done"
   else
   let n := kvNat ws "n"
   let p := payload n (kvNat ws "pat") (kvNat ws "per") (kvNat ws "nl")
